@@ -394,6 +394,9 @@ struct Fault {
     h2: bool,
     /// Some: the generator knows what hyper parses and what dropshot's stages decide
     script: Option<Vec<AReq>>,
+    /// send one byte per write(2) (TCP_NODELAY is set)
+    #[serde(default)]
+    drip: bool,
 }
 
 #[derive(Serialize, Deserialize, Clone, Debug)]
@@ -597,7 +600,15 @@ fn run_fault(f: &Fault, addr: SocketAddr) -> (Vec<u8>, End) {
     let bytes = expand(&f.send);
     // errors while sending (the server may have answered and closed already)
     // are part of the fault, not of the harness
-    let _ = s.write_all(&bytes).and_then(|_| s.flush());
+    if f.drip {
+        for b in &bytes {
+            if s.write_all(std::slice::from_ref(b)).is_err() {
+                break;
+            }
+        }
+    } else {
+        let _ = s.write_all(&bytes).and_then(|_| s.flush());
+    }
     let mut ans = vec![];
     let never = |_: &[u8]| false;
     let head = f.head;
@@ -796,6 +807,7 @@ fn fault(kind: &str, server: usize, bytes: &[u8]) -> Fault {
         head: false,
         h2: false,
         script: None,
+        drip: false,
     }
 }
 /// a request whose fate the generator knows
@@ -840,8 +852,17 @@ const PLAIN: [usize; 2] = [0, 1];
 /// requests whose handling the generator knows stage by stage
 fn gen_known(out: &mut Vec<Case>) {
     for &sv in &[0usize, 1, 2] {
+        // kinds whose request is malformed in the strict sense of the property
+        // (undecodable path, unparsable parameter, unparsable body)
+        const MALFORMED_KINDS: [&str; 4] =
+            ["known/bad-path-encoding", "known/bad-query", "known/json-bad-body", "known/bad-path-param"];
         let mut k = |kind: &str, bytes: Vec<u8>, script: Vec<AReq>| {
-            out.push(Case::Fault(known(kind, sv, &bytes, script)));
+            let mut f = known(kind, sv, &bytes, script);
+            f.malformed = MALFORMED_KINDS.contains(&kind);
+            if kind.ends_with("/drip") {
+                f.drip = true;
+            }
+            out.push(Case::Fault(f));
         };
         let typed = |f: [bool; 6]| ABody::Typed(f[0], f[1], f[2], f[3], f[4], f[5]);
         let t = true;
@@ -884,7 +905,12 @@ fn gen_known(out: &mut Vec<Case>) {
             let mut a = ar_ok(200);
             a.path = false;
             let _ = i;
-            k("known/bad-path", simple(sv, "GET", p, "", None), vec![a]);
+            let kind = if p.contains("%ff") || p.contains("%c3%28") {
+                "known/bad-path-encoding"
+            } else {
+                "known/bad-path"
+            };
+            k(kind, simple(sv, "GET", p, "", None), vec![a]);
         }
         k(
             "known/absolute-form",
@@ -900,6 +926,23 @@ fn gen_known(out: &mut Vec<Case>) {
             "known/connection-close",
             simple(sv, "GET", "/health", "Connection: close\r\n", None),
             vec![ar_ok(200)],
+        );
+        k(
+            "known/h2c-upgrade-ignored",
+            simple(
+                sv,
+                "GET",
+                "/health",
+                "Connection: Upgrade, HTTP2-Settings\r\nUpgrade: h2c\r\nHTTP2-Settings: AAMAAABkAARAAAAAAAIAAAAA\r\n",
+                None,
+            ),
+            vec![ar_ok(200)],
+        );
+        // a streamed response to an HTTP/1.0 client: framed by connection close
+        k(
+            "known/http10-streamed-response",
+            format!("GET /chunks/3 HTTP/1.0\r\n{}\r\n", vh(sv)).into_bytes(),
+            vec![ar(0, &[true], ABody::None, AHandler::Ok(200))],
         );
         // TypedBody
         let jb = JSON_BODY.as_bytes();
@@ -1123,6 +1166,23 @@ fn gen_known(out: &mut Vec<Case>) {
                 ],
             );
         }
+        // one byte per write: hyper's incremental parser must reach the same requests
+        k(
+            "known/echo/drip",
+            simple(sv, "GET", "/echo/abc?n=5", "", None),
+            vec![ar(0, &[t, t], ABody::None, AHandler::Ok(200))],
+        );
+        k(
+            "known/json/drip",
+            simple(sv, "POST", "/json", cj, Some(jb)),
+            vec![ar(0, &[], typed([t, t, t, t, t, t]), AHandler::Ok(200))],
+        );
+        k("known/chunked/drip", chunked("5\r\nhello\r\n3\r\nabc\r\n0\r\n\r\n"), stream_ok.clone());
+        k(
+            "known/bad-query/drip",
+            simple(sv, "GET", "/echo/abc?n=notanumber", "", None),
+            vec![ar(0, &[t, fl], ABody::None, AHandler::Ok(200))],
+        );
     }
     // HEAD: no endpoint serves it (405); hyper strips the body of the answer
     for &sv in &[0usize, 1, 2] {
@@ -1156,7 +1216,11 @@ fn gen_known(out: &mut Vec<Case>) {
             .chain(line.chars().map(|c| c as u32 as u8))
             .chain(b"\r\n".iter().copied())
             .collect();
-        out.push(Case::Fault(known("known/bad-version", sv, &b, vec![badv.clone()])));
+        let mut f = known("known/bad-version", sv, &b, vec![badv.clone()]);
+        // a value that is not a semver is malformed; a missing header or a
+        // version newer than the server's is refused without being malformed
+        f.malformed = !line.is_empty() && !line.contains("3.0.0");
+        out.push(Case::Fault(f));
     }
     out.push(Case::Fault(known(
         "known/max-version",
@@ -1867,6 +1931,7 @@ fn run_case(c: &Case, addrs: &[SocketAddr], accept_errors: &[Arc<AtomicUsize>]) 
                 head: false,
                 h2: false,
                 script: None,
+                drip: false,
             };
             let (ans, end) = run_fault(&f, addrs[TLS]);
             let (alive, probe) = tls_alive(addrs[TLS]);
